@@ -3,6 +3,7 @@ package c07
 import (
 	"bytes"
 	"fmt"
+	"io"
 	"runtime"
 	"testing"
 
@@ -77,4 +78,75 @@ func TestC07Transient(t *testing.T) {
 	ev.Explore(run, t, "transient", run.N(60, 600), func(rt *rapid.T) TransientCase {
 		return TransientCase{N: rapid.SampledFrom([]int{400, 1500, 3000, 120}).Draw(rt, "n"), GC: rapid.SampledFrom([]int{50, 10, 200}).Draw(rt, "gc"), W: rapid.IntRange(1, 4).Draw(rt, "w")}
 	}, execTransient)
+}
+
+// ---- several values in one stream ----------------------------------------------------------------
+//
+// A pickle ends at its STOP opcode. Values written one after the other to one stream (a file, a pipe,
+// a base64 decoder - readers that hand out whatever chunk they like and are not io.ByteReaders) must
+// come back one by one from a fresh Decoder each: a Decoder may not consume bytes of the next value.
+
+type StreamCase struct {
+	Vs    []starval.V `json:"vs"`
+	Chunk int         `json:"chunk"` // the transport returns at most this many bytes per Read (0 = all it has)
+}
+
+// chunkReader is a plain io.Reader (no ReadByte, no WriteTo).
+type chunkReader struct {
+	data  []byte
+	chunk int
+}
+
+func (r *chunkReader) Read(p []byte) (int, error) {
+	if len(r.data) == 0 {
+		return 0, io.EOF
+	}
+	n := len(p)
+	if r.chunk > 0 && n > r.chunk {
+		n = r.chunk
+	}
+	if n > len(r.data) {
+		n = len(r.data)
+	}
+	copy(p, r.data[:n])
+	r.data = r.data[n:]
+	return n, nil
+}
+
+func execStream(c StreamCase) ev.Verdict {
+	if len(c.Vs) < 2 {
+		return ev.Verdict{Skip: "short"}
+	}
+	var stream bytes.Buffer
+	var vals []starlark.Value
+	for _, d := range c.Vs {
+		v, _ := starval.Build(d)
+		vals = append(vals, v)
+		if err := pickle.NewEncoder(&stream, starval.Pickler).Encode(v); err != nil {
+			return ev.Failf("encode-error", "Encode failed: %v", err)
+		}
+	}
+	r := &chunkReader{data: stream.Bytes(), chunk: c.Chunk}
+	for i, want := range vals {
+		got, err := pickle.NewDecoder(r, starval.Unpickler).Decode()
+		if err != nil {
+			return ev.Failf("stream-decode-error", "value %d of %d written to one stream does not decode with a fresh Decoder: %v", i+1, len(vals), err)
+		}
+		if ok, why := starval.Iso(want, got); !ok {
+			return ev.Failf("stream-not-iso", "value %d of %d written to one stream decodes to something else: %s", i+1, len(vals), why)
+		}
+	}
+	return ev.Verdict{NonTrivial: true, Classes: []string{"stream-of-values"}}
+}
+
+func TestC07Stream(t *testing.T) {
+	opts := starval.GenOpts{MaxDepth: 2, BigProb: 0, Hosts: true, Refs: true}
+	ev.Explore(run, t, "stream", run.N(1500, 20000), func(rt *rapid.T) StreamCase {
+		n := rapid.IntRange(2, 5).Draw(rt, "nvalues")
+		c := StreamCase{Chunk: rapid.SampledFrom([]int{0, 1, 7, 4096}).Draw(rt, "chunk")}
+		for i := 0; i < n; i++ {
+			c.Vs = append(c.Vs, starval.Gen(rt, opts))
+		}
+		return c
+	}, execStream)
 }
